@@ -488,6 +488,17 @@ def check_frontmatter_order(ctx: Ctx) -> None:
                "the text handed to split_frontmatter must be the unmodified input; it is " + ", ".join(fmt_origin(o) for o in org), where(fm, c))
 
 
+def _rename_root(v, root: str):
+    """the value tree with the given root symbol renamed to BODY (to compare the two arms)"""
+    if isinstance(v, tuple):
+        return tuple(_rename_root(x, root) for x in v)
+    if isinstance(v, frozenset):
+        return frozenset(_rename_root(x, root) for x in v)
+    if isinstance(v, str) and v == root and type(v) is str:
+        return "BODY"
+    return v
+
+
 def check_frontmatter_flow(ctx: Ctx) -> None:
     """C07: the frontmatter text reaches the result only through the final concatenation; the body never depends on it."""
     repo, prog = ctx.repo, ctx.prog
@@ -546,6 +557,7 @@ def check_frontmatter_flow(ctx: Ctx) -> None:
     ctx.require("R-FRONTMATTER", "parser call in fill_markdown", len(parse_nodes), 1)
     results: dict[bool, frozenset] = {}
     parsed: dict[bool, set] = {}
+    shapes: dict[bool, set] = {}
     for present in (True, False):
         dec = mk(present)
         results[present] = dec.func_outcomes(fm, al)
@@ -555,6 +567,7 @@ def check_frontmatter_flow(ctx: Ctx) -> None:
                 if end is pn:
                     for v in dec.ev(fm, pc.args[0], env, benv, env.get("__aliases__", al), 0):
                         roots |= {str(r) for r in roots_of(v)} or {"?"}
+                        shapes.setdefault(present, set()).add(_rename_root(v, "C" if present else "TEXT"))
         parsed[present] = roots
     ctx.note("frontmatter_flow", {"returned_when_present": sorted(map(str, results[True])), "returned_when_absent": sorted(map(str, results[False])),
                                   "parser_input_when_present": sorted(parsed[True]), "parser_input_when_absent": sorted(parsed[False])})
@@ -569,6 +582,32 @@ def check_frontmatter_flow(ctx: Ctx) -> None:
     ctx.ob("R-FRONTMATTER", f"{fm.qual} :: body = content when frontmatter is present", parsed[True] == {"C"},
            f"with frontmatter the text that is formatted must be the content half only; the parser input is computed from {sorted(parsed[True])}",
            where(fm, fm.node))
+    # the body goes through the same steps whether or not a frontmatter block was split off: on the arm taken when there is
+    # one, the text to be formatted may be *switched* to the content half (a plain copy), nothing more - an extra strip /
+    # dedent / replace there would prepare the same body differently depending on the presence of the block
+    from .common import all_guards as _all_guards
+
+    body_vars: set[str] = set()
+    for pn, pc in parse_nodes:
+        sl_ = prog.slice(fm, pc.args[0], pn)
+        body_vars |= {d.var for d in sl_.defs}
+    extra = []
+    for n in flow.cfg.nodes:
+        if n.kind != "stmt" or not isinstance(n.ast, (ast.Assign, ast.AugAssign)):
+            continue
+        tg_ = n.ast.targets[0] if isinstance(n.ast, ast.Assign) else n.ast.target
+        if not (isinstance(tg_, ast.Name) and tg_.id in body_vars):
+            continue
+        guarded = any(b.kind == "test" and any(isinstance(x, ast.Name) and x.id == fvar for x in ast.walk(b.ast)) for b, _lab in _all_guards(prog, fm, n))
+        if not guarded:
+            continue
+        v_ = n.ast.value
+        if isinstance(n.ast, ast.Assign) and isinstance(v_, ast.Name) and v_.id in (cvar, fm.params[0]):
+            continue
+        extra.append(n)
+    ctx.ob("R-FRONTMATTER", f"{fm.qual} :: body is prepared the same way with and without frontmatter", not extra,
+           "under the frontmatter-presence test the text to be formatted may only be switched to the content half; "
+           + ("; ".join(f"`{norm(n.ast)[:60]}` does more" for n in extra) if extra else "it is"), where(fm, extra[0] if extra else fm.node))
     ctx.ob("R-FRONTMATTER", f"{fm.qual} :: body does not depend on the frontmatter text", "F" not in parsed[True] | parsed[False],
            f"the parser input must not be computed from the frontmatter text; it is computed from {sorted(parsed[True] | parsed[False])}", where(fm, fm.node))
 
